@@ -9,6 +9,8 @@ from rules.C09 import install_errno_table, io_sites, IO_NATIVES, WAIT, EAGAIN, E
 
 FD_CLOEXEC = 1
 F_SETFD = 2
+F_SETFL = 4
+O_NONBLOCK = 0o4000
 SOCK_CLOEXEC = 0o2000000
 
 # functions that read socket->fd without a preceding closed test, one reason each
@@ -241,7 +243,71 @@ def run(prog, rep):
                "every condition wait is reached only with socket->blocking true" if not unguarded else
                "line %d: the condition wait is reached without socket->blocking being tested true (a non-blocking socket would block)" % unguarded[0],
                unguarded[0] if unguarded else fn.loc[0])
-    rep.floor("C10.3", 16)
+    # the whole mode emulation stands on one fact: the descriptor inside a PSocket is *always* non-blocking (the wait, with the
+    # timeout, is done by poll; the native call then never sleeps).  (a) the mode setter - by role: the unit function that issues
+    # fcntl(F_SETFL) - ORs O_NONBLOCK into the flags on every path on which its boolean parameter is false; (b) every constructor
+    # that installs a descriptor into a fresh object passes through that setter with FALSE before it can return the object
+    setters = [f for f in u.functions.values() if any(c.get("callee") == "fcntl" and len(c["args"]) >= 3 and cv(c["args"][1]) == F_SETFL for (b, i, c) in f.calls())]
+    if len(setters) != 1 or len(setters[0].param_names()) < 2:
+        raise AnalysisBroken("psocket.c: expected exactly one function that sets the descriptor status flags (fcntl F_SETFL)")
+    S = setters[0]
+    bpar = S.param_names()[1]
+    wrong = []
+
+    def s_stmt(st, b, i, stmt, wrong=wrong):
+        facts, mode = st
+        for n in walk(stmt):
+            if n["k"] in ("bin", "asg") and n.get("op") in ("|", "|=") and O_NONBLOCK in (cv(n["l"]), cv(n["r"])):
+                mode = "set"
+            elif n["k"] in ("bin", "asg") and n.get("op") in ("&", "&=") and any(m is not None and m & O_NONBLOCK == 0 and m & 0xffff == 0xffff & ~O_NONBLOCK for m in (cv(n["l"]), cv(n["r"]))):
+                mode = "cleared"
+            elif n["k"] == "call" and n.get("callee") == "fcntl" and len(n["args"]) >= 3 and cv(n["args"][1]) == F_SETFL and mode != "set":
+                wrong.append((line(n), mode))
+        return [(guards.transfer(facts, stmt), mode)]
+
+    def s_edge(st, b, to, on):
+        f2 = guards.edge_assume(st[0], b, on)
+        return None if f2 is None else (f2, st[1])
+    Flow(S, [(guards.add_fact(guards.EMPTY, bpar, "==", 0), "none")], s_stmt, s_edge).run()
+    rep.ob("C10.3", S, "mode:nonblocking", not wrong, "asked for blocking=FALSE, %s ORs O_NONBLOCK into the status flags before fcntl(F_SETFL) on every path" % S.name if not wrong else
+           "line %d: with blocking=FALSE the flags handed to fcntl(F_SETFL) %s: the descriptor stays blocking, a non-blocking socket sleeps in the native call and a timeout is never honoured" % (
+               wrong[0][0], "have O_NONBLOCK cleared" if wrong[0][1] == "cleared" else "were never ORed with O_NONBLOCK"), wrong[0][0] if wrong else S.loc[0])
+    nctor = 0
+    for fr in sorted(u.functions.values(), key=lambda f: f.loc[0]):
+        if not any(c.get("callee") in ("p_malloc0", "p_malloc") for (b, i, c) in fr.calls()):
+            continue
+        fn = fr.inlined(skip=(S.name,))
+        objs = set()
+        for (b, i, n) in fn.nodes():
+            if n["k"] == "asg" and strip_casts(n["r"]) is not None and strip_casts(n["r"])["k"] == "call" and strip_casts(n["r"]).get("callee") in ("p_malloc0", "p_malloc") \
+                    and strip_casts(n["l"]) is not None and strip_casts(n["l"])["k"] == "ref":
+                objs.add(strip_casts(n["l"])["name"])
+        inst = [n for (b, i, n) in fn.nodes() if n["k"] == "asg" and strip_casts(n["l"])["k"] == "member" and strip_casts(n["l"])["field"] == "fd" and root_var(n["l"]) in objs and cv(n["r"]) != -1]
+        if not inst:
+            continue
+        nctor += 1
+        obj = root_var(inst[0]["l"])
+        blocking_exit = []
+
+        def c_stmt(st, b, i, stmt, blocking_exit=blocking_exit, obj=obj, fn=fn):
+            facts, done = st
+            for n in walk(stmt):
+                if n["k"] == "call" and n.get("callee") == S.name and len(n["args"]) >= 2 and (cv(n["args"][1]) == 0 or guards.lookup(facts, guards.key(n["args"][1])) == 0):
+                    done = True
+                if n["k"] == "asg" and strip_casts(n["l"])["k"] == "member" and strip_casts(n["l"])["field"] == "fd" and root_var(n["l"]) == obj:
+                    done = False
+            if stmt["k"] == "ret" and stmt.get("e") is not None and not done:
+                e = fn.resolve(stmt["e"]) or strip_casts(stmt["e"])
+                if (root_var(stmt["e"]) == obj or root_var(e) == obj) and guards.lookup(facts, obj) != 0:
+                    blocking_exit.append(line(stmt))
+            return [(guards.transfer(facts, stmt), done)]
+        Flow(fn, [(guards.EMPTY, False)], c_stmt, s_edge, max_states=20000).run()
+        rep.ob("C10.3", fr, "descriptor:nonblocking", not blocking_exit, "the descriptor installed in the new socket goes through %s (…, FALSE) on every path that returns the object" % S.name if not blocking_exit else
+               "line %d: %s returns the new socket without having put its descriptor into non-blocking mode (%s with FALSE is not on this path): a descriptor that arrives blocking makes a "
+               "non-blocking PSocket sleep inside recv/send/accept, and a timeout T is never enforced" % (blocking_exit[0], fr.name, S.name), blocking_exit[0] if blocking_exit else fr.loc[0])
+    if nctor < 2:
+        raise AnalysisBroken("psocket.c: expected two constructors that install a descriptor (p_socket_new, p_socket_new_from_fd), found %d" % nctor)
+    rep.floor("C10.3", 16 + 3)
 
     # ---- C10.4 timeout plumbing ----------------------------------------------
     w = u.fn(WAIT).inlined()
@@ -341,10 +407,20 @@ def run(prog, rep):
     if not {0, 1, "err0"} <= seen:
         okm, mmsg = False, mmsg or "result mapping incomplete: cases seen %s" % sorted(map(str, seen))
     rep.ob("C10.4", w, "timeout:result", okm, "poll 1 -> TRUE, 0 -> FALSE with P_ERROR_IO_TIMED_OUT, failure -> FALSE" if okm else mmsg, pc)
+    # a poll that came back with a verdict - a ready descriptor (1, whatever revents says: POLLERR/POLLHUP alone wake it too and the
+    # native call then reports the reason) or the timeout (0) - ends the wait; only an interrupted one is re-entered.  Going round
+    # again on a level-triggered poll spins forever.  errno is whatever an earlier call left (EINTR included): it means nothing here
+    for pv in (1, 0):
+        for ev_ in (0, 4):
+            res = run_scenario(w, pb, pi, pc, pv, ev_, excuse_other_calls=False)
+            again = res["retried"] > 0
+            rep.ob("C10.4", w, "timeout:verdict=%d,errno=%d" % (pv, ev_), not again, "poll returning %d ends the wait on every path" % pv if not again else
+                   "poll returned %d (%s) and a path goes back into poll instead of returning: for a condition that stays raised (an error or hang-up on the descriptor) "
+                   "the wait spins forever and the blocking call neither completes nor fails" % (pv, "a descriptor is ready" if pv else "timed out"), pc)
     # an interrupted poll is re-entered with the full timeout: it never turns into "timed out" before T elapsed
     from plint.retry import check_retry
     check_retry(rep, "C10.4", w, pb, pi, pc, "timeout:eintr")
-    rep.floor("C10.4", 3)
+    rep.floor("C10.4", 3 + 4)
 
     # ---- C10.5 getters / setters ---------------------------------------------
     pairs = [("p_socket_get_keepalive", "p_socket_set_keepalive", "keepalive"),
@@ -544,6 +620,16 @@ def controlling_conditions(fn, bid):
 RENAME_LOCALS = ['src/psocket.c']
 
 SELFTEST = [
+    dict(id="wait-ignores-foreign-wakeup", file="src/psocket.c", expect="C10.4",
+         old="\t\tif (evret == 1)\n\t\t\treturn TRUE;\n\t\telse if (evret == 0) {", new="\t\tif (evret == 1 && (pfd.revents & pfd.events) == 0)\n\t\t\tcontinue;\n\n\t\tif (evret == 1)\n\t\t\treturn TRUE;\n\t\telse if (evret == 0) {", count=2),
+    dict(id="new-from-fd-keeps-mode", file="src/psocket.c", expect="C10.3",
+         old="\tif (P_UNLIKELY (pp_socket_set_fd_blocking (ret->fd, FALSE, error) == FALSE)) {\n\t\tp_free (ret);\n\t\treturn NULL;\n\t}\n", new=""),
+    dict(id="new-sets-blocking-true", file="src/psocket.c", expect="C10.3",
+         old="\tif (P_UNLIKELY (pp_socket_set_fd_blocking (ret->fd, FALSE, error) == FALSE)) {\n\t\tp_socket_free (ret);", new="\tif (P_UNLIKELY (pp_socket_set_fd_blocking (ret->fd, TRUE, error) == FALSE)) {\n\t\tp_socket_free (ret);"),
+    dict(id="fd-blocking-polarity", file="src/psocket.c", expect="C10.3",
+         old="\targ = (!blocking) ? (arg | O_NONBLOCK) : (arg & ~O_NONBLOCK);", new="\targ = (blocking) ? (arg | O_NONBLOCK) : (arg & ~O_NONBLOCK);"),
+    dict(id="fd-blocking-ifelse-neutral", file="src/psocket.c", expect=None,
+         old="\targ = (!blocking) ? (arg | O_NONBLOCK) : (arg & ~O_NONBLOCK);", new="\tif (blocking)\n\t\targ &= ~O_NONBLOCK;\n\telse\n\t\targ |= O_NONBLOCK;"),
     dict(id="send-no-closed-check", file="src/psocket.c", expect="C10.1",
          old="\t\treturn -1;\n\t}\n\n\tif (P_UNLIKELY (pp_socket_check (socket, error) == FALSE))\n\t\treturn -1;\n\n\tfor (;;) {\n\t\tif (socket->blocking &&\n\t\t    p_socket_io_condition_wait (socket,\n\t\t\t\t\t\tP_SOCKET_IO_CONDITION_POLLOUT,",
          new="\t\treturn -1;\n\t}\n\n\tfor (;;) {\n\t\tif (socket->blocking &&\n\t\t    p_socket_io_condition_wait (socket,\n\t\t\t\t\t\tP_SOCKET_IO_CONDITION_POLLOUT,"),
